@@ -598,7 +598,67 @@ def m_int_method(ctx):
         p.fields = {0: mk_scalar(r, ty)}
         out.variants = {"Some": p}
         return ctx.ret(out)
+    if meth in ("checked_shl", "checked_shr"):
+        tb = eng.scalar(ctx.args[1], "u32")
+        inr = z3.ULT(tb, z3.BitVecVal(w, tb.size()))
+        s_ = amt(ctx.args[1])
+        r = (ta << s_) if meth == "checked_shl" else ((ta >> s_) if sg else z3.LShR(ta, s_))
+        out = Node(fresh_root("e"), ty="Option<%s>" % ty)
+        out.tag = z3.If(inr, bv64(1), bv64(0))
+        p = Node(fresh_root("p"))
+        p.fields = {0: mk_scalar(r, ty)}
+        out.variants = {"Some": p}
+        return ctx.ret(out)
+    if meth == "checked_neg":
+        bad = (ta == z3.BitVecVal(-(1 << (w - 1)), w)) if sg else (ta != z3.BitVecVal(0, w))
+        out = Node(fresh_root("e"), ty="Option<%s>" % ty)
+        out.tag = z3.If(bad, bv64(0), bv64(1))
+        p = Node(fresh_root("p"))
+        p.fields = {0: mk_scalar(-ta, ty)}
+        out.variants = {"Some": p}
+        return ctx.ret(out)
+    if meth in ("overflowing_add", "overflowing_sub", "overflowing_mul"):
+        b = mk_scalar(eng.scalar(ctx.args[1], ty), ty)
+        return ctx.ret(eng.binop({"overflowing_add": "AddWithOverflow", "overflowing_sub": "SubWithOverflow",
+                                  "overflowing_mul": "MulWithOverflow"}[meth], a, b))
+    if meth in ("saturating_add", "saturating_sub"):
+        b = mk_scalar(eng.scalar(ctx.args[1], ty), ty)
+        pair = eng.binop("AddWithOverflow" if meth == "saturating_add" else "SubWithOverflow", a, b)
+        res, ovf = pair.fields[0].term, pair.fields[1].term
+        if sg:
+            mx = z3.BitVecVal((1 << (w - 1)) - 1, w)
+            mn = z3.BitVecVal(-(1 << (w - 1)), w)
+            tb = b.term
+            neg_dir = (tb < 0) if meth == "saturating_add" else (tb > 0)
+            sat = z3.If(neg_dir, mn, mx)
+        else:
+            sat = z3.BitVecVal((1 << w) - 1, w) if meth == "saturating_add" else z3.BitVecVal(0, w)
+        return ctx.ret(mk_scalar(z3.If(ovf, sat, res), ty))
+    if meth in ("wrapping_abs", "abs", "unsigned_abs"):
+        if meth == "abs":
+            # plain abs panics on MIN in builds with overflow checks of *core*; refuse to guess
+            raise Unsupported("i64::abs")
+        return ctx.ret(mk_scalar(z3.If(ta < 0, -ta, ta), ty if meth == "wrapping_abs" else "u" + ty[1:]))
+    if meth in ("min", "max"):
+        tb = eng.scalar(ctx.args[1], ty)
+        lt = (ta < tb) if sg else z3.ULT(ta, tb)
+        return ctx.ret(mk_scalar(z3.If(lt, ta, tb) if meth == "min" else z3.If(lt, tb, ta), ty))
+    if meth in ("count_ones", "leading_zeros", "trailing_zeros", "pow", "rotate_left", "rotate_right"):
+        raise Unsupported("int method %s" % meth)
     raise Unsupported("int method %s" % meth)
+
+
+def m_ord_minmax(ctx):
+    eng = ctx.eng
+    meth = ctx.norm.rsplit("::", 1)[1]
+    a, b = ctx.args
+    ta = eng.scalar(a)
+    tb = eng.scalar(b, a.ty)
+    k = scalar_kind(a.ty) or scalar_kind(b.ty)
+    if k is None or k[0] != "bv":
+        raise Unsupported("min/max on %r" % a.ty)
+    lt = (ta < tb) if k[2] else z3.ULT(ta, tb)
+    return ctx.ret(mk_scalar(z3.If(lt, ta, tb) if meth == "min" else z3.If(lt, tb, ta), a.ty or b.ty))
 
 
 # ------------------------------------------------------------------ mem::{replace, swap, take}
@@ -801,7 +861,10 @@ def install(eng):
     R = eng.model_rx
     R.append((re.compile(r"<&?(?:i|u)(?:8|16|32|64|128|size) as (?:BitAnd|BitOr|BitXor)>::(?:bitand|bitor|bitxor)"),
               m_ref_binop))
-    R.append((re.compile(r"core::num::<impl [iu](?:8|16|32|64|128|size)>::(?:wrapping|checked)_\w+"), m_int_method))
+    R.append((re.compile(r"core::num::<impl [iu](?:8|16|32|64|128|size)>::(?:wrapping|checked|overflowing|saturating)_\w+"), m_int_method))
+    R.append((re.compile(r"core::num::<impl [iu](?:8|16|32|64|128|size)>::(?:unsigned_abs|abs)"), m_int_method))
+    R.append((re.compile(r"<[iu](?:8|16|32|64|128|size) as Ord>::(?:min|max)"), m_ord_minmax))
+    R.append((re.compile(r"std::cmp::(?:min|max)"), m_ord_minmax))
     R.append((re.compile(r"<(?:bool|char|[iu](?:8|16|32|64|128|size)|InputValue|OutputValue|ExpectedValue|BinOp"
                          r"|UnaryOp|TokenKind|OutputEntryIndex|InputEntry|OutputEntry|ExpectedEntry) as Clone>::clone"),
               m_clone_copy))
